@@ -12,7 +12,7 @@ ALL = [f"C{n:02d}" for n in range(1, 21)]
 CHECKS = {
     "C01": dict(
         level="exploration",
-        text="Thousands of generated empty-snapshot sites (value universe x 5 operations x placements) are created by the real code and the rewritten module is re-executed with inline-snapshot inactive; every comparison must be True. Random exploration of an unbounded input space: evidence counts sites, distinct (op, placement, value-shape) signatures and re-execution events.",
+        text="Thousands of generated empty-snapshot sites (value universe x 5 operations x placements) are created by the real code and the rewritten module is re-executed with inline-snapshot inactive; every comparison must be True; a sample of real `pytest --inline-snapshot=create` sessions followed by `--inline-snapshot=disable` must be green. Random exploration of an unbounded input space: evidence counts sites, distinct (op, placement, value-shape) signatures and re-execution events.",
         note="Trusts Python's own evaluation of the rewritten module as the oracle and the in-process driver's equivalence to Example.run_inline (C19 checks drivers against real sessions). nan/inf and HasRepr-in-set excluded.",
         technique="runtime monitoring: generated workloads + boundary oracle (plain re-execution of rewritten module, per-comparison event log)",
         ref="DESIGN.md section 4 C01",
